@@ -85,7 +85,9 @@ def gen_items(rng, ik):
         return [rng.choice([1, 'a', None, 2.5]) for _ in range(n)]
     if ik == 'list':
         return [{'t': 'list', 'n': rng.randint(1000, 10 ** 6), 'v': [rng.randint(0, 9) for _ in range(rng.randint(0, 3))]}
-                if rng.random() < 0.8 else {'t': 'tuple', 'v': [rng.randint(0, 9)]} for _ in range(n)]
+                if rng.random() < 0.8 else
+                ({'t': 'tuple', 'v': [rng.randint(0, 9)]} if rng.random() < 0.6 else rng.choice(['ab', '', 'xyz']))
+                for _ in range(n)]      # a str chunk contributes its characters, like any other iterable
     if ik == 'list2':
         return [{'t': 'list', 'v': [{'t': 'list', 'v': [rng.randint(0, 9) for _ in range(rng.randint(0, 2))]}
                                     for _ in range(rng.randint(0, 2))]} for _ in range(n)]
